@@ -6,7 +6,7 @@ import refs as R
 import artrefs
 import common
 from common import CSR_FN
-from interp import core, places, calls_of, roots, Interp, StructV, PhiV
+from interp import core, places, calls_of, roots, Interp, StructV, PhiV, Via
 
 PROP = "C07"
 CONFIGS_QUICK = ["K1", "K2"]
@@ -229,6 +229,62 @@ def san_back(cfg, crate, rep):
             got[g] = vs
     want = {"RFC822Name": ["Rfc822Name"], "DNSName": ["DnsName"], "URI": ["URI"], "IPAddress": ["IpAddress"], "OtherName": ["OtherName"]}
     rep.ob("C07.back", "%s|%s" % (cfg, fn), got == want, "GeneralName -> SanType arms are the inverse of the writer's tag table", expected=want, found=got)
+    # the iPAddress arm hands the octets to the octet converter and stores what it returns
+    xi = specialise(v, variant_assignment(v, "name", "IPAddress"))
+    pay = [sv_.fields.get("0") for sv_ in common.find_structs(xi, "SanType::IpAddress")]
+    okp = bool(pay) and all(p_ is not None and sorted(c_ for c_ in calls_of(p_) if not c_.startswith("<")) == ["ip_addr_from_octets"] and "name#IPAddress.0" in roots(p_) and not [r_ for r_ in roots(p_) if r_.startswith("op:")] for p_ in pay)
+    rep.ob("C07.back", "%s|%s|ip-octets" % (cfg, fn), okp, "the iPAddress arm stores exactly what the octet converter returns for the name's octets", found=[core(p_).r()[:120] for p_ in pay if p_ is not None])
+    ip_octets(cfg, crate, rep)
+
+
+def ip_octets(cfg, crate, rep, rule="C07.back"):
+    """iPAddress octets -> IpAddr: 16 octets are the IPv6 address with exactly those octets, 4 octets the IPv4 address,
+    anything else an error.  Decided on the value: every success alternative is a chain of `From`/`Into`/deref
+    conversions (no other call, no arithmetic) from the checked slice-to-array conversion of the input to
+    `Ipv6Addr: From<[u8; 16]>` resp. `Ipv4Addr: From<[u8; 4]>`, and the remaining alternative is an `Err`."""
+    import re
+    from interp import flatten_phi, Sel, Param
+    fn = "ip_addr_from_octets"
+    if fn not in crate.bodies:
+        rep.fail(rule, "%s|%s" % (cfg, fn), "octet converter not found")
+        return
+    rep.fn(fn)
+    I = Interp(crate)
+    v = I.run_fn(fn)["value"]
+    widths, bad, errs = [], [], 0
+    for c, x in flatten_phi(v):
+        x0 = x
+        while isinstance(x0, Via) and x0.name in ("inlined", "?"):
+            x0 = x0.inner
+        if not isinstance(x0, StructV) or x0.variant not in ("Ok", "Err"):
+            bad.append("alternative is not Ok(..)/Err(..): %s" % core(x).r()[:80])
+            continue
+        if x0.variant == "Err":
+            errs += 1
+            continue
+        w = None
+        cur = x0.fields.get("0")
+        steps = []
+        while True:
+            if isinstance(cur, Via) and cur.name in ("into", "from", "try_from", "try_into", "deref", "clone", "copied", "to_owned", "inlined", "?", "borrow", "as_ref"):
+                cal = getattr(cur, "callee", "") or ""
+                m = re.search(r"<std::net::Ip(v4|v6)?Addr as std::convert::From<\[u8; (\d+)\]>>::from", cal)
+                if m:
+                    w = int(m.group(2))
+                    if (m.group(1) == "v4" and w != 4) or (m.group(1) == "v6" and w != 16) or w not in (4, 16):
+                        bad.append("conversion %s" % cal)
+                steps.append(cur.name)
+                cur = cur.inner
+            elif isinstance(cur, Sel) and cur.sel in ("#Ok.0", "?"):
+                cur = cur.base
+            else:
+                break
+        if not (isinstance(cur, Param) and cur.r() == "octets") or w is None:
+            bad.append("address is not a plain conversion of the octets: %s" % core(x0.fields.get("0")).r()[:120])
+        else:
+            widths.append(w)
+    ok = not bad and sorted(widths) == [4, 16] and errs >= 1
+    rep.ob(rule, "%s|%s" % (cfg, fn), ok, "4 / 16 iPAddress octets are imported as exactly that IPv4 / IPv6 address; other lengths are an error", found=bad or {"widths": sorted(widths), "error alternatives": errs})
 
 
 def run(ctx):
